@@ -367,8 +367,10 @@ func (te *tableEngine) continueGame(alivePlayers []*TablePlayerState) error {
 					// return te.TableGameOpen()
 					nextGameCount := te.table.State.GameCount + 1
 					participants := make(map[string]int)
-					for idx, player := range alivePlayers {
-						participants[player.PlayerID] = idx
+					for idx, player := range te.table.State.PlayerStates {
+						if player.IsIn && player.Bankroll > 0 {
+							participants[player.PlayerID] = idx
+						}
 					}
 					te.SetUpTableGame(nextGameCount, participants)
 					te.verifHook("continue.setup")
